@@ -195,7 +195,9 @@ impl Property for C15 {
         let mut frng = Rng::stream(run_seed, "faults");
         let use_pdr = crng.chance(1, 3);
         let sys = loop {
-            let sys = gen_system(&mut rng, 7, 3, use_pdr, |c| {
+            // PDR conversations stay at 5 state bits: the fault-free run must finish far below
+            // the event budget (its run length grows with 2^(state bits) and has a heavy tail)
+            let sys = gen_system(&mut rng, if use_pdr { 5 } else { 7 }, 3, use_pdr, |c| {
                 if use_pdr {
                     c.structured = true;
                     c.no_init_16 = 0;
